@@ -699,6 +699,14 @@ func runFrame(fr *frame) {
 		if int(fr.visits[fr.block.Index]) > i.cfg.Unwind {
 			panic(engineAbort{abBudget, fmt.Sprintf("unwinding bound %d exceeded in %s block %d", i.cfg.Unwind, fr.fn, fr.block.Index)})
 		}
+		if i.cfg.CutFn != "" && int(fr.visits[fr.block.Index]) > i.cfg.CutN && strings.HasSuffix(fr.fn.String(), i.cfg.CutFn) {
+			// deliberate cut declared by the harness: paths iterating this function's loop more than
+			// CutN times are outside the claim
+			if i.path != nil {
+				i.path.outside = append(i.path.outside, fmt.Sprintf("paths with more than %d iterations of a loop in %s (cut)", i.cfg.CutN, i.cfg.CutFn))
+			}
+			panic(engineAbort{abInfeasible, "cut"})
+		}
 		if i.path != nil {
 			i.path.blocks++
 		}
